@@ -175,6 +175,11 @@ def main(ck):
     ck.log("proofs checked")
     quick = ck.tier == "quick"
 
+    K = tbl["consts"]
+    for a, b, nm in (("LPAREN", "RPAREN", "("), ("LBRACKET", "RBRACKET", "["), ("LBRACE", "RBRACE", "{")):
+        BR["open"][K[a]] = K[b]
+        BR["close"][K[b]] = {"(": ")", "[": "]", "{": "}"}[nm]
+        BR["name"][K[a]] = nm
     cases = []     # dicts: hex, mode, origin, mut, run
     if ck.replay:
         rp = json.load(open(ck.replay))
@@ -182,11 +187,6 @@ def main(ck):
             cases = [rp["case"]]
     else:
         # (iii) exhaustive short sources over a token alphabet (+ every keyword of the token table), executed too
-        K = tbl["consts"]
-        for a, b, nm in (("LPAREN", "RPAREN", "("), ("LBRACKET", "RBRACKET", "["), ("LBRACE", "RBRACE", "{")):
-            BR["open"][K[a]] = K[b]
-            BR["close"][K[b]] = {"(": ")", "[": "]", "{": "}"}[nm]
-            BR["name"][K[a]] = nm
         kw_lo, kw_hi = tbl["consts"]["KEYWORD_START"], tbl["consts"]["KEYWORD_END"]
         alpha = list(ALPHA)
         for ty, hx in tbl["defs"]:
